@@ -1,5 +1,7 @@
 //verif:dest internal/clients/zz_verif_c12.go
-//verif:replace regexp.Compile = c12Compile
+//verif:replace@C12a regexp.Compile = c12Compile
+//verif:replace@C12b regexp.Compile = c12Compile
+//verif:replace@C12c regexp.Compile = c12Compile
 
 package clients
 
